@@ -1,7 +1,7 @@
 //! C02 — muxer output is a structurally valid, self-consistent ISO-BMFF file (independent parser).
 use super::PropMeta;
 use crate::engine::{Check, Ctx, Failure};
-use crate::mux::{self, CallOutcome, MSample, MuxCase};
+use crate::mux::{self, MSample, MuxCase};
 use crate::refmp4::parse::*;
 use crate::refmp4::cc;
 use crate::{ensure, fail};
@@ -41,6 +41,8 @@ pub fn validate(case: &MuxCase, model: &[Vec<MSample>], bytes: &[u8]) -> Result<
 /// byte range of the mdat payload (chunk offsets are absolute stream positions).
 pub fn validate_parts(case: &MuxCase, model: &[Vec<MSample>], ftyp_payload: &[u8], moov_bytes: &[u8], md_lo: u64, md_hi: u64) -> Result<Vec<TrackFacts>, Failure> {
     let bytes = moov_bytes;
+    // track i of the file is the i-th configuration the muxer accepted
+    let accepted: Vec<&crate::mux::MTrack> = case.tracks.iter().filter(|t| crate::mux::expect_accept(t)).collect();
     let mtop = match walk(moov_bytes) {
         Ok(t) => t,
         Err(e) => fail!("c02:tiling", "independent parser rejects the moov box: {}", e),
@@ -61,7 +63,7 @@ pub fn validate_parts(case: &MuxCase, model: &[Vec<MSample>], ftyp_payload: &[u8
     for (ti, trak) in traks.iter().enumerate() {
         let m = &model[ti];
         let n = m.len() as u64;
-        let conf = &case.tracks[ti];
+        let Some(conf) = accepted.get(ti).copied() else { fail!("c02:trak-count", "more trak boxes than accepted configurations") };
         let track_ts = if conf.preset { 1000 } else { conf.timescale };
         let need = |b: &PBox, t: &str| b.child(t).cloned().ok_or_else(|| Failure::new(format!("c02:missing-{}", t.trim()), format!("track {}: no {} box", ti + 1, t)));
         let tkhd = dec_tkhd(need(trak, "tkhd")?.payload(bytes)).map_err(|e| Failure::new("c02:tkhd", e))?;
@@ -174,7 +176,8 @@ pub fn oracle(ctx: &mut Ctx, case: &MuxCase) -> Check {
     if let Some(f) = mux::first_panic(&run) {
         return Err(f);
     }
-    if run.calls.iter().any(|(n, o)| matches!(o, CallOutcome::Err(_)) && n != "write_sample") || !run.calls.iter().any(|(n, _)| n == "write_end") {
+    let v = mux::judge_calls(case, &run);
+    if v.rejected_valid || v.accepted_invalid || !run.calls.iter().any(|(n, _)| n == "write_end") {
         ctx.count("hist:muxer-rejected-a-valid-call(outside-property)");
         return Ok(());
     }
